@@ -2,6 +2,7 @@ package vm
 
 import (
 	"github.com/elk-language/elk/value"
+	"math"
 )
 
 // ::Std::Channel
@@ -34,6 +35,13 @@ func initChannel() {
 				if !ok {
 					return value.Undefined, value.Ref(value.NewError(value.OutOfRangeErrorClass, "channel capacity is too large"))
 				}
+			}
+			if n < 0 {
+				return value.Undefined, value.Ref(value.NewError(value.OutOfRangeErrorClass, "channel capacity cannot be negative"))
+			}
+			if n > math.MaxInt32 {
+				// the runtime cannot allocate a buffer of this size
+				return value.Undefined, value.Ref(value.NewError(value.OutOfRangeErrorClass, "channel capacity is too large"))
 			}
 			self := value.NewChannelOfValue(n)
 			return value.Ref(self), value.Undefined
